@@ -7,7 +7,11 @@ cd /repo || exit 3
 if [ -n "$(git status --porcelain)" ]; then echo "/repo not clean"; exit 3; fi
 git apply "$patch" || { echo "patch does not apply"; exit 3; }
 trap 'git -C /repo checkout -- . ; git -C /repo clean -fdq -- bio-seq bio-seq-derive >/dev/null 2>&1' EXIT
+# the evidence file of the property describes the UNCHANGED tree: keep it out of harm's way
+ev=/verif/evidence/$id.json; bak=/verif/work/.evidence-$id.bak
+[ -f "$ev" ] && cp "$ev" "$bak"
 cd /verif && ./check "$id" "$tier"
 rc=$?
+[ -f "$bak" ] && mv "$bak" "$ev"
 echo "seedtest: $patch -> $id $tier rc=$rc"
 exit $rc
